@@ -471,7 +471,7 @@ def f1_body(tname: str, g: tuple, shape: str, use: str, pos: str) -> list[str] |
     raise AssertionError(shape)
 
 
-def gen_f1(level: str) -> list[dict]:
+def gen_f1(level: str, prune: bool = True) -> list[dict]:
     """F1 narrowing.  level "single": T x G x K x U(applicable), single guards.
     level "pairs": adds ordered guard pairs (g1, g2) in and / or / nested, probe use."""
     out: list[dict] = []
@@ -480,7 +480,7 @@ def gen_f1(level: str) -> list[dict]:
             for tname in F1_TYPES:
                 caps = TYPES[tname][2]
                 for g in GUARDS:
-                    if use != "probe" and use not in (caps | g[4]):
+                    if prune and use != "probe" and use not in (caps | g[4]):
                         continue
                     for shape in SHAPES:
                         for pos in (["both"] if use == "probe" else ["then", "else"]):
@@ -962,6 +962,7 @@ def gen_f5() -> list[dict]:
 
 FAMILIES: dict[str, Any] = {
     "F1": lambda: gen_f1("single"),
+    "F1full": lambda: gen_f1("single", prune=False),
     "F1p": lambda: gen_f1("pairs"),
     "F2": gen_f2,
     "F4": gen_f4,
